@@ -41,7 +41,7 @@ BUILDS = [
 
 def strategy(tier: str) -> Any:
     feat = S.Features(extensible=False, ext_arrays=False, bits_budget=500, big=False, max_files=2)
-    return cases.sv_cases(feat, nrand=2, config=st.fixed_dictionaries({"cc_opt": st.sampled_from([("gcc", "-O0"), ("gcc", "-O2"), ("gcc", "-O3"), ("clang", "-O2")])}))
+    return cases.sv_cases(feat, nrand=2, config=st.fixed_dictionaries({"cc_opt": st.sampled_from([("gcc", "-O0"), ("gcc", "-O2"), ("gcc", "-O3"), ("clang", "-O2")]), "be_announce": st.sampled_from(sorted(cexec.BE_ANNOUNCE))}))
 
 
 def extra_labels(m: Any) -> List[str]:
@@ -86,7 +86,9 @@ def run_builds(case: cases.SVCase, stats: Stats, builds: List[Tuple[str, bool, s
                     cdir = cu.render_all("c", tag="c_" + tag)
             except Exception as e:
                 raise Violation(f"traditional schema refused/failed for C {tag}: {type(e).__name__}: {e}", signature=f"compile:{type(e).__name__}")
-            cfg = cexec.CConfig(cc=cc, opt=opt, big_endian=be)
+            cfg = cexec.CConfig(cc=cc, opt=opt, big_endian=be, be_announce=case.config.get("be_announce", "BP_BIG_ENDIAN"))
+            if be and cfg.be_announce != "BP_BIG_ENDIAN":
+                stats.count("cfg:big_endian_announced_by_toolchain_macro")
             try:
                 drv = cexec.CDriver(case.unit, cdir, msgs, cfg, with_json=False, workdir=cu.outdir("drv_" + tag))
             except cexec.CBuildError as e:
